@@ -80,11 +80,17 @@ def run_shard(sh):
                         if enc == 'binary':
                             cases.append({'op': 'readcomp', 'hex': data.hex(), 'encoding': enc, 'dlm': dlm, 'policy': policy, 'has_header': has_header, 'comment_prefix': comment, 'text_stream': True})
                             meta.append((s, data.decode('latin-1'), enc, dlm, policy, has_header, comment))
+    elif sh['kind'] == 'rawbytes':
+        # inputs that are NOT valid UTF-8 (truncated at the end, a lone continuation byte, 0xFF): every delivery must report what bulk reading reports
+        data = bytes.fromhex(sh['hex'])
+        for policy, dlm in POLICIES:
+            cases.append({'op': 'readcomp', 'hex': data.hex(), 'encoding': 'utf-8', 'dlm': dlm, 'policy': policy, 'has_header': False, 'comment_prefix': None})
+            meta.append((data.decode('latin-1'), None, 'utf-8', dlm, policy, False, None))
     else:
         return run_bigfile(sh, res)
     outs = js.run_batch(cases)
     for (orig, text, enc, dlm, policy, has_header, comment), out, cs in zip(meta, outs, cases):
-        n = len(orig.encode('utf-8'))
+        n = len(orig.encode('utf-8')) if text is not None else len(orig)
         if cs.get('text_stream'):
             res.feat('text_stream_deliveries', out['executions'])
         res.evaluations += out['executions'] + 2
@@ -118,6 +124,12 @@ def run_shard(sh):
             if enc == 'utf-8' and orig.startswith('\ufeff') and 'warnings' in bulk and 'warnings' in base and [w for w in bulk['warnings'] if 'BOM' not in w] == base['warnings'] and bulk.get('records') == base.get('records'):
                 sig = 'F14:js-stream-reader-drops-bom-silently'
             res.violation(sig, case, {'bulk': bulk}, {'stream': base})
+        if text is None:
+            res.feat('invalid_utf8_inputs')
+            case['hex'] = orig.encode('latin-1').hex()
+            if 'error' not in base or not base['error'].startswith('io:'):
+                res.violation('invalid-utf8-accepted', case, 'IO handling error', base)
+            continue
         bom = '﻿' if enc == 'utf-8' else '\xef\xbb\xbf'
         r = refcsv.ref_read(text, dlm, policy, has_header, comment, bom)
         why = compare_with_ref(base, r, has_header)
@@ -201,6 +213,8 @@ def main(tier, seed):
             shards.append({'kind': 'ascii', 'syms': s2, 'policy': pol, 'first': f1, 'minlen': 1, 'maxlen': 5 if T else 4, 'textstream': True})
     for s in SAMPLES:
         shards.append({'kind': 'utf8', 'sample': s})
+    for hx in ('61c3', 'c3', '612ce282', 'e282', '61f09f98', 'c3a92c610ae2', '61ff2c62', 'a9', '0d0ac3', '22c3a90a22e2', 'efbb', 'efbbbf61c3'):
+        shards.append({'kind': 'rawbytes', 'hex': hx})
     # long inputs under every single cut (first 400 positions + every 37th) and uniform chunk sizes: chunks of 128+ / 1024+ bytes, lines delivered in dozens of reads
     crlf = ''.join('row%d,"v %d"\r\n' % (i, i) for i in range(40))
     cronly = ''.join('r%d,x\r' % i for i in range(60))
@@ -218,11 +232,11 @@ def main(tier, seed):
         shards.append({'kind': 'bigfile', 'crits': [c]})
     res = core.run_shards('vf.checks.c20', shards)
     return core.finish(PID, tier, seed, res, t0,
-        rule='all byte compositions (2^(n-1)) of all inputs up to the length bound over {o, quote, comma (space for whitespace policy), LF, CR, #} x 5 policies x comment prefix x header, and of 10 UTF-8 samples (utf-8 and binary); the binary encoding also over a text stream (pieces delivered as latin-1 strings); '
+        rule='all byte compositions (2^(n-1)) of all inputs up to the length bound over {o, quote, comma (space for whitespace policy), LF, CR, #} x 5 policies x comment prefix x header, and of 10 UTF-8 samples (utf-8 and binary); 12 byte strings that are not valid UTF-8 (truncated at the end of the input, lone continuation bytes, 0xFF) under every composition; the binary encoding also over a text stream (pieces delivered as latin-1 strings); '
              'states = delivery-tree nodes, transitions = chunks delivered; 64 KiB boundary files for every internal offset of 7 critical sequences; non-trivial = multi-chunk delivery of an input containing CR, a quote or a multi-byte character',
         assumptions=['the reader sees its input only through the data/end events of the stream; each prescribed piece is delivered in its own event-loop turn', 'RefCSV ref_read is the statement of the record rules'],
         extra={'bounds': {'ascii_len': 6 if T else 5, 'samples': SAMPLES}},
-        min_features={'multibyte_inputs': 100, 'crlf_inputs': 500, 'bigfile_cases': 20, 'long_input_deliveries': 2000, 'text_stream_deliveries': 5000})
+        min_features={'multibyte_inputs': 100, 'crlf_inputs': 500, 'bigfile_cases': 20, 'long_input_deliveries': 2000, 'text_stream_deliveries': 5000, 'invalid_utf8_inputs': 40})
 
 
 def replay(rep):
